@@ -527,6 +527,11 @@ func buildRegistration(r *RNG, s *RegSpec) *RegBuilt {
 		b.Stmt = stmtOf(cborText("alg"), algItem(s, int64(alg)), cborText("sig"), sigItem(r, s, mkSig(signer, s.CredAlg, signed)))
 	case "packed-x5c":
 		att := genKeyPair(r, s.AttAlg)
+		// RSA keys come from a small pool: the attestation key must not happen to BE the credential key (a statement stripped of its x5c
+		// would then be a genuine self attestation, and "made by another key" would not be another key)
+		for sameKey(att, cred) {
+			att = genKeyPair(r, s.AttAlg)
+		}
 		signer := att
 		if s.d("sig.otherKey") {
 			signer = genKeyPair(r, s.AttAlg)
@@ -770,6 +775,9 @@ func buildRegistration(r *RNG, s *RegSpec) *RegBuilt {
 		b.Stmt = stmtOf(cborText("x5c"), x5cOf(leafFirstOrSecond(s, der)...))
 	case "tpm":
 		aik := genKeyPair(r, s.AttAlg)
+		for sameKey(aik, cred) {
+			aik = genKeyPair(r, s.AttAlg)
+		}
 		nameAlg := pick(r, []tpm2.Algorithm{tpm2.AlgSHA256, tpm2.AlgSHA1, tpm2.AlgSHA384, tpm2.AlgSHA256, tpm2.AlgSHA3_256, tpm2.AlgSHA512})
 		if s.d("tpm.nameAlgForeignSameSize") {
 			nameAlg = pick(r, []tpm2.Algorithm{tpm2.AlgSHA256, tpm2.AlgSHA384, tpm2.AlgSHA3_256, tpm2.AlgSHA512})
